@@ -315,8 +315,19 @@ def explore_csv(res, auto_index, depth, shard, nshards, scratch):
             scratch.drop_db_dir(path)
 
 
+READ_OPS_THAT_REINDEX = {"search", "count", "contains", "get", "select", "all", "get_measurements", "get_tag_keys",
+                         "get_field_keys", "get_tag_values", "get_field_values", "get_timestamps"}
+
+
 def make_random_judge(res):
     def judge(kind, s, out, ctx):
+        if kind == "read" and s.cfg["auto_index"] and out.op["op"] in READ_OPS_THAT_REINDEX and out.exc is None:
+            # with automatic indexing on, any read leaves the index valid
+            res.count("transition.read_checked")
+            if not out.post_valid:
+                res.violate(Violation("C06", "read-left-index-invalid", {"config": cfg_name(s.cfg), "read": out.op["op"], "valid_before": out.pre_valid},
+                                      replay={"mode": "history", **replay_of(s)}))
+            return
         if kind != "write":
             return
         seq = replay_of(s)
@@ -359,7 +370,10 @@ def run(res, tier, seed, shard, nshards):
             for h in range(N_RANDOM[tier]):
                 rng = rng_for("C06", tier, seed, shard, ci, h)
                 prof = Profile()
-                prof.query_probes = False
+                prof.query_probes = True
+                prof.time_probes = False
+                prof.n_random_probes = 1
+                prof.getter_probes = h % 2 == 0
                 if h % 5 == 3:  # instants at and around the epoch
                     from .. import gen as _gen
 
